@@ -325,7 +325,10 @@ type Peer struct {
 	scCount uint32
 
 	// connections are mutable, and are protected by the mutex.
-	newConnLock         sync.Mutex
+	// newConnLock restricts new connection creation attempts to one goroutine.
+	// It is a 1-buffered channel rather than a mutex so that a caller waiting
+	// for it gives up when its own context ends.
+	newConnLock         chan struct{}
 	inboundConnections  []*Connection
 	outboundConnections []*Connection
 	chosenCount         atomic.Uint64
@@ -342,6 +345,7 @@ func newPeer(channel Connectable, hostPort string, onStatusChanged func(*Peer), 
 		onStatusChanged = noopOnStatusChanged
 	}
 	return &Peer{
+		newConnLock:         make(chan struct{}, 1),
 		channel:             channel,
 		hostPort:            hostPort,
 		onStatusChanged:     onStatusChanged,
@@ -406,8 +410,10 @@ func (p *Peer) GetConnection(ctx context.Context) (*Connection, error) {
 	}
 
 	// Lock here to restrict new connection creation attempts to one goroutine
-	p.newConnLock.Lock()
-	defer p.newConnLock.Unlock()
+	if err := p.lockNewConn(ctx); err != nil {
+		return nil, err
+	}
+	defer p.unlockNewConn()
 
 	// Check active connections again in case someone else got ahead of us.
 	if activeConn, ok := p.getActiveConn(); ok {
@@ -418,20 +424,26 @@ func (p *Peer) GetConnection(ctx context.Context) (*Connection, error) {
 	return p.Connect(ctx)
 }
 
+// lockNewConn waits for the right to create a new connection, but no longer
+// than the caller's context allows.
+func (p *Peer) lockNewConn(ctx context.Context) error {
+	select {
+	case p.newConnLock <- struct{}{}:
+		return nil
+	case <-ctx.Done():
+		return GetContextError(ctx.Err())
+	}
+}
+
+func (p *Peer) unlockNewConn() {
+	<-p.newConnLock
+}
+
 // getConnectionRelay gets a connection, and uses the given timeout to lazily
 // create a context if a new connection is required.
 func (p *Peer) getConnectionRelay(callTimeout, relayMaxConnTimeout time.Duration) (*Connection, error) {
 	if conn, ok := p.getActiveConn(); ok {
 		return conn, nil
-	}
-
-	// Lock here to restrict new connection creation attempts to one goroutine
-	p.newConnLock.Lock()
-	defer p.newConnLock.Unlock()
-
-	// Check active connections again in case someone else got ahead of us.
-	if activeConn, ok := p.getActiveConn(); ok {
-		return activeConn, nil
 	}
 
 	// Use the lower timeout value of the call timeout and the relay connection timeout.
@@ -446,6 +458,18 @@ func (p *Peer) getConnectionRelay(callTimeout, relayMaxConnTimeout time.Duration
 	// and don't try to send Hyperbahn traffic on this connection.
 	ctx, cancel := NewContextBuilder(timeout).HideListeningOnOutbound().Build()
 	defer cancel()
+
+	// Lock here to restrict new connection creation attempts to one goroutine.
+	// Waiting for another goroutine's attempt counts against the same timeout.
+	if err := p.lockNewConn(ctx); err != nil {
+		return nil, err
+	}
+	defer p.unlockNewConn()
+
+	// Check active connections again in case someone else got ahead of us.
+	if activeConn, ok := p.getActiveConn(); ok {
+		return activeConn, nil
+	}
 
 	return p.Connect(ctx)
 }
